@@ -140,6 +140,25 @@ def main():
                     yield x
                 g = jaxtyped(tc(gen))
                 return list(g(np.zeros((3,), "float32"))) is not None
+            if op == "old_style_generator_twin":
+                # an old-style decorated generator function whose return annotation is WRITTEN like the annotation of the probe
+                # function pf (textually identical generic, separately constructed objects): it shares nothing with pf
+                ann = typing.Iterator[typing.Tuple[Float[A, "n q"], int]]
+                def gen(x) -> ann:
+                    yield x
+                g = jaxtyped(tc(gen))
+                return list(g((np.zeros((3, 3), "float32"), 1))) is not None
+            if op == "reentered_context_object":
+                # one jaxtyped("context") object kept in a variable and entered again while it is entered (a recursive walker)
+                scope = jaxtyped("context")
+                def walk(d):
+                    with scope:
+                        isinstance(np.zeros((3,), "float32"), alias)
+                        if d:
+                            walk(d - 1)
+                        raiser(state["fault"])
+                walk(2)
+                return True
             if op == "generator_suspended":
                 # a generator made by a decorated generator function, advanced once and kept alive (suspended) ever after
                 @jaxtyped(typechecker=tc)
@@ -203,7 +222,7 @@ def main():
         KEEP = []
         RELEASE, THREADS = [], []
 
-        def probes(alias):
+        def probes(alias, pf):
             out = {}
             out["path"] = getattr(_storage._treepath_storage, "value", None)
             out["flat"] = bool(getattr(_storage, "get_treeflatten_memo", lambda: False)())
@@ -224,6 +243,7 @@ def main():
             out["P3_structured_pytree"] = safe(lambda: isinstance((np.zeros((3,), "float32"),), PyTree[Float[A, "a"], "T"]))
             out["P4_alias_rejects_wrong_dtype"] = safe(lambda: isinstance(np.zeros((3,), "int32"), alias))
             out["P5_alias_rejects_wrong_rank"] = safe(lambda: isinstance(np.zeros((3, 3), "float32"), alias))
+            out["P7_early_function_rejects_wrong_dtype"] = safe(lambda: pf((np.zeros((3, 3), "int32"), 1)))
             out["P6_stateless_toplevel"] = safe(lambda: (isinstance(np.zeros((3,), "float32"), Float[A, "n"]), isinstance(np.zeros((4,), "float32"), Float[A, "n"])))
             return out
 
@@ -241,6 +261,10 @@ def main():
         for hist in req["histories"]:
             alias = Float[A, "n"]            # a fresh annotation object per history
             outcomes = []
+            # a function decorated BEFORE anything else happens, annotated with a typing generic over an array annotation
+            @jaxtyped(typechecker=typeguard.typechecked)
+            def pf(x: typing.Tuple[Float[A, "n q"], int]):
+                return 0
 
             for o in hist:
                 def go():
@@ -258,7 +282,7 @@ def main():
                 except BaseException as e:  # noqa
                     outcomes.append("BaseException:" + type(e).__name__)
             state["fault"] = None
-            p = probes(alias)
+            p = probes(alias, pf)
             for ev in RELEASE:
                 ev.set()
             for th in THREADS:
